@@ -169,6 +169,7 @@ def main(argv=None):
     ap.add_argument("--jobs", type=int, default=min(16, os.cpu_count() or 4))
     ap.add_argument("-v", "--verbose", action="store_true")
     ap.add_argument("--only")
+    ap.add_argument("--selftest", action="store_true", help="CPython cross-check of proved contracts (always on in thorough)")
     a = ap.parse_args(argv)
     prop = a.prop
     seed = int(os.environ.get("VERIF_SEED", "0"))
@@ -323,6 +324,25 @@ def report(prop, a, api, results, t0, seed):
         print(f"UNDECIDED property={prop} unit={unit} {why}")
     for unit, tb in crashes:
         print(f"CRASH property={prop} unit={unit}\n{tb}")
+    cross = None
+    if a.tier == "thorough" or a.selftest:
+        try:
+            from pyvc import selftest
+            from pyvc.resolve import Repo
+            proved = [f["target"] for f in functions if f["kind"] == "contract" and f["obligations"] > 0
+                      and f["obligations"] == f["discharged"]]
+            ev, bad, skipped = selftest.run(Repo(repo_root()), proved, seed, per_contract=150 if a.tier == "thorough" else 40)
+            cross = {"evaluations": ev, "contracts": len(proved), "disagreements": bad,
+                     "skipped": [f"{k}: {w}" for k, w in skipped]}
+            for b in bad:
+                print(f"ENGINE-DISAGREEMENT property={prop} {b['target']}: proved clause(s) {b['failed']} fail natively on "
+                      f"{json.dumps(b['args'], default=str)[:400]} -> {str(b.get('result'))[:200]} {b.get('raised','')}")
+            if bad:
+                crashes.append(("selftest", "proved contract fails natively: engine encoding or native rendering is wrong"))
+        except BaseException:  # noqa
+            crashes.append(("selftest", traceback.format_exc()))
+    for unit, tb in crashes:
+        print(f"CRASH property={prop} unit={unit}\n{tb}")
     if crashes:
         rc = 3
     elif rc == 0 and undecided:
@@ -330,7 +350,7 @@ def report(prop, a, api, results, t0, seed):
     write_evidence(prop, a, api, dict(n_ob=n_ob, n_dis=n_dis, functions=functions, assumed=assumed, bounded=bounded,
                                       per_ob=per_ob, externals=sorted(externals), ufs=sorted(ufs), inlined=sorted(inlined),
                                       backends=backends, solver_ms=solver_ms, violations=violations, undecided=undecided,
-                                      known_hits=known_hits), t0, seed)
+                                      known_hits=known_hits, cross=cross), t0, seed)
     print(f"{prop}: {n_dis}/{n_ob} obligations discharged, {len(violations)} violations, {len(undecided)} undecided, "
           f"{len(known_hits)} known findings, {len(assumed)} assumed contracts, {time.time()-t0:.1f}s -> exit {rc}")
     return rc
@@ -361,6 +381,7 @@ def write_evidence(prop, a, api, s, t0, seed):
         "refuted_known": [{"id": k, "what": v[0]["what"], "obligation": v[1]["name"], "witness": v[0].get("witness")}
                           for k, v in s["known_hits"].items()],
         "undecided": [f"{u}: {w}" for u, w in s["undecided"]][:50],
+        "runtime_cross_check": s.get("cross"),
         "explanation": meta.get(prop, {}).get("explanation", "obligations generated from the current source of the functions under contract and discharged by SMT"),
         "evaluations": max(1, s["n_ob"]), "distinct_nontrivial": max(2, len({o['name'].split('#')[0] for o in s['per_ob']})),
         "rule": "one evaluation = one verification condition (path x clause); distinct = distinct obligation labels",
